@@ -70,7 +70,7 @@ func (Engine) Describe(prop string) core.Description {
 		d.Assumptions = []string{
 			"nil and empty maps are equal; meta numbers are values encoding/json's generic model represents exactly; a nil Identifiers slice is not generated",
 			"'selected fields' are those the parsed URL lists for the resource's type; relationship values are compared only when their data was requested",
-			"included resources have pairwise distinct IDs",
+			"included resources have pairwise distinct (type, ID) pairs; the same ID under several types is generated on purpose",
 		}
 		d.FaultKinds = []string{"F1-fragmentation", "F1-zero-length-read", "F1-eof-with-data"}
 		d.Probes = []string{"kind-nil", "kind-resource", "kind-softcollection", "kind-resources", "kind-wrappercollection", "kind-identifier", "kind-identifiers", "with-errors", "with-included", "with-meta", "method-PATCH"}
@@ -502,7 +502,7 @@ func runC02(t *core.Tape, st *core.Stats) *core.Violation {
 		return nil
 	}
 
-	ds := world.DrawDoc(t, spec, world.DocOptions{MaxPrimary: 5, MaxIncluded: 4, DistinctIncl: true, Errors: true, ExoticIDs: false})
+	ds := world.DrawDoc(t, spec, world.DocOptions{MaxPrimary: 5, MaxIncluded: 4, InclPairs: true, Errors: true, ExoticIDs: false})
 	t.Logf("%s", ds.Describe())
 	st.Inc("probe:kind-" + ds.Kind)
 
